@@ -5,6 +5,8 @@ package main
 
 import (
 	"fmt"
+	"os"
+	"strings"
 	"sync/atomic"
 	"time"
 
@@ -157,6 +159,7 @@ func runSpecCheck(c *Ctx, rtl bool) {
 	add("SEQ k<=3", seq3, "", profP0, 5, false)
 	add("ALT", altL, "", profP0, 5, false)
 	add("ALT", altL, "i", profP0i, 4, false)
+	add("LOOP3", loop3Family(false), "", profP0, 6, false)
 	add("ALTB", altBranchFamily(false), "", profP0, 4, false)
 	add("LOOP", loopF, "", profP0, 5, false)
 	add("LOOK", lookF, "", profP0, 4, false)
@@ -200,6 +203,7 @@ func runSpecCheck(c *Ctx, rtl bool) {
 		add("SEQ k<=3 anchored", seqFamily(3, true), "", profP0, 5, true)
 		add("ALT full", altFamily(true), "", profP0, 5, true)
 		add("ALTB full", altBranchFamily(true), "", profP0, 5, true)
+		add("LOOP3 full", loop3Family(true), "", profP0, 6, true)
 		add("LOOK", lookF, "", profP0, 5, true)
 		add("LOOP", loopF, "", profP0, 6, true)
 		add("CORE-S<=6", coreS6, "", profP0, 4, true)
@@ -213,6 +217,10 @@ func runSpecCheck(c *Ctx, rtl bool) {
 			continue
 		}
 		famName := fmt.Sprintf("%s opts=%q %s L<=%d", job.fam, string(job.opts), job.prof.name, job.maxL)
+		if only := os.Getenv("VERIF_ONLY_FAM"); only != "" && !strings.Contains(famName, only) {
+			c.NotExhaustive("family filter VERIF_ONLY_FAM skipped " + famName) // triage aid
+			continue
+		}
 		fs := c.Fam(famName)
 		rawInputs := allStrings(job.prof.input, job.maxL)
 		inputs := make([][]rune, len(rawInputs))
